@@ -1409,6 +1409,13 @@ def run(tier, seed):
         translate.translate(PID)
     except Exception as e:
         ck.proof_broken("translator gen/c20.py", repr(e))
+    try:        # what the translator could not read from the source text this run (measured on the live objects / kept from the Gen file)
+        import gen.c20 as _gen
+        if _gen.NOTES:
+            ck.extra["translator_notes"] = list(_gen.NOTES)
+            ck.notes += [n[:300] for n in _gen.NOTES]
+    except Exception:
+        pass
     ck.prove("ScrapliProps.C20", lemma_files=LEMMAS)
     if tier == "thorough":
         ck.leanchecker("ScrapliProps.C20")
